@@ -112,7 +112,8 @@ Definition violated (full : bool) (S : tsdoc) (D : opdoc) : list rule :=
   else let vs := vis_doc_sites S D in filter (fun r => negb (rule_ok_vis_on S D vs r)) all_rules.
 
 Definition holds (c : case) : bool :=
-  schema_wf (c_schema c) &&    (* the guard of the theorems holds for the schema (it passed check) *)
+  schema_wf (c_schema c) &&    (* the guards of the theorems hold: the schema passed check, *)
+  selsets_nonempty (c_doc c) && (* the document came out of the parser *)
   match violated (c_full c) (c_schema c) (c_doc c) with
   | [] => true
   | [r] => existsb (fun e => kind_belongs r (e_msg e)) (c_out c)
